@@ -104,6 +104,9 @@ static void prop(Src& s) {
     long total_reads = piece == 0 ? 1 : static_cast<long>((bytes.size() + piece - 1) / piece);
     long fault_read = -1;
     std::string fault_text = FAULT_NAME[kind];
+    std::vector<Obj> bad_blob_expected;
+    bool bad_blob_expected_known = false;
+    std::string bad_blob_error;
     if (kind == F_BAD_BLOB) {
         std::vector<Frame> frames = fmt == 0 ? pbf_frames(bytes) : std::vector<Frame>{};
         if (frames.size() < 2) {
@@ -112,16 +115,40 @@ static void prop(Src& s) {
         } else {
             size_t n = 1 + s.draw(frames.size() - 1);  // a data blob (frame 0 is the header)
             using namespace enc::pb;
-            if (s.boolean()) {
-                frames[n].blob = f_int64(2, 200) + f_bytes(3, "this is not zlib data");
-                fault_text += " (blob " + std::to_string(n) + " of " + std::to_string(frames.size() - 1) + ": garbage instead of zlib data)";
-            } else {
-                // a valid block whose only node uses a string index outside the string table
-                std::string node = f_sint64(1, 1) + f_bytes(2, packed_varint({77})) + f_bytes(3, packed_varint({78})) + f_sint64(8, 1) + f_sint64(9, 1);
-                frames[n].blob = f_bytes(1, f_bytes(1, f_bytes(1, "")) + f_bytes(2, f_bytes(1, node)));
-                fault_text += " (blob " + std::to_string(n) + " of " + std::to_string(frames.size() - 1) + ": string index out of range)";
+            // what the blobs in front of the broken one hold: exactly that has to be delivered before the error
+            {
+                std::vector<Frame> intact(frames.begin(), frames.begin() + static_cast<long>(n));
+                std::string err;
+                bad_blob_expected = lab::reference_decode(pbf_join(intact), format, &err);
+                VP_CHECK(err.empty(), "reference-decode-failed", "reference decode of the blobs in front of the broken one failed: " << err);
+                bad_blob_expected_known = true;
             }
-            frames[n].header = f_bytes(1, "OSMData") + f_int64(3, static_cast<int64_t>(frames[n].blob.size()));
+            const bool first_is_zlib = s.boolean();
+            auto break_blob = [&](size_t k, bool zlib_garbage) {
+                if (zlib_garbage) {
+                    frames[k].blob = f_int64(2, 200) + f_bytes(3, "this is not zlib data");
+                    fault_text += " (blob " + std::to_string(k) + " of " + std::to_string(frames.size() - 1) + ": garbage instead of zlib data)";
+                } else {
+                    // a valid block whose only node uses a string index outside the string table
+                    std::string node = f_sint64(1, 1) + f_bytes(2, packed_varint({77})) + f_bytes(3, packed_varint({78})) + f_sint64(8, 1) + f_sint64(9, 1);
+                    frames[k].blob = f_bytes(1, f_bytes(1, f_bytes(1, "")) + f_bytes(2, f_bytes(1, node)));
+                    fault_text += " (blob " + std::to_string(k) + " of " + std::to_string(frames.size() - 1) + ": string index out of range)";
+                }
+                frames[k].header = f_bytes(1, "OSMData") + f_int64(3, static_cast<int64_t>(frames[k].blob.size()));
+            };
+            break_blob(n, first_is_zlib);
+            {
+                // the error this blob produces when it is the only broken one (single-threaded reference run)
+                std::string err;
+                (void)lab::reference_decode(pbf_join(frames), format, &err);
+                bad_blob_error = err;
+            }
+            if (n + 1 < frames.size() && s.boolean()) {
+                // a second broken blob behind it, broken in the other way: the caller must see the error of the first
+                const size_t m2 = n + 1 + s.draw(frames.size() - n - 1);
+                break_blob(m2, !first_is_zlib);
+                vp::count("two_broken_blobs");
+            }
             bytes = pbf_join(frames);
         }
     }
@@ -280,6 +307,19 @@ static void prop(Src& s) {
     if (read_to_end && fired && (kind == F_READ_THROWS || kind == F_CLOSE_THROWS || kind == F_BAD_BLOB)) {
         VP_CHECK(ob.threw, "error-not-reported", "the fault fired but no call reported it: the caller read to the end and " << (ending == 1 ? "destroyed" : "closed") << " the Reader without seeing an exception (" << ob.objs.size() << " objects delivered) | " << what);
         if (kind == F_READ_THROWS || kind == F_CLOSE_THROWS) VP_CHECK(ob.what.find("injected") != std::string::npos, "wrong-error-reported", "the caller got a different error than the injected one: " << outcome << " | " << what);
+    }
+    if (kind == F_BAD_BLOB && bad_blob_expected_known) {
+        // everything in front of the (first) broken blob and nothing behind it; when the caller read to the end, exactly that, and the
+        // error of the first broken blob
+        bool prefix = ob.objs.size() <= bad_blob_expected.size();
+        for (size_t i = 0; prefix && i < ob.objs.size(); ++i) prefix = ob.objs[i] == bad_blob_expected[i];
+        VP_CHECK(prefix, "delivered-not-a-prefix", "objects delivered from a file with a broken blob are not a prefix of what the blobs in front of it hold (" << ob.objs.size() << " delivered, " << bad_blob_expected.size() << " in front of the broken blob) | " << outcome << " | " << what);
+        // (that *all* of them arrive before the error is what the library does, but the statement only asks for the error to be reported:
+        // observed, not asserted)
+        if (read_to_end && ob.threw) vp::count(ob.objs.size() == bad_blob_expected.size() ? "observed_all_objects_in_front_of_the_broken_blob_delivered" : "observed_error_reported_before_all_objects_in_front_of_it");
+        if (read_to_end && ob.threw && !bad_blob_error.empty()) {
+            VP_CHECK(ob.what == bad_blob_error, "not-the-first-error", "the caller got [" << ob.what << "], the first broken blob in the file produces [" << bad_blob_error << "] | " << what);
+        }
     }
     if (kind == F_NONE) {
         VP_CHECK(!ob.threw, "spurious-error", "an error was reported although nothing failed: " << outcome << " | " << what);
